@@ -32,7 +32,9 @@ TECHNIQUE = "deterministic simulation: template grammar vs independent renderer 
 LITS = ("", " ", "value=", "hit ", " and ", "-> ", "é ü 中 ", "100% done; ", "a.b,c ", "[x] ", "(p) ", "#", "\t", "'q' \"d\" ")
 FIELDS_OK = ("i", "val", "name", "flag", "person", "person.name", "person.age", "person.greet()", "data['k']",
              "data['l'][0]", "data", "G_HOST", "len(name)", "i + val", "name.upper()", "x if False else i",
-             "BIG", "BIG[1]", "i * 1.5", "val / 4")
+             "BIG", "BIG[1]", "i * 1.5", "val / 4", "next(cnt)", "next(cnt)")
+#: fields whose evaluation changes what the next evaluation yields: each occurrence is evaluated in its own place
+IMPURE = ("next(cnt)",)
 FIELDS_BAD = ("nosuch", "person.nope", "data['zz']", "1 / 0", "host_raise('kaboom')", "time_ns")
 
 
@@ -84,6 +86,7 @@ def execute(s, ch):
     viol = []
     tmpl = template_text(s["parts"])
     fields = [t for kind, t in s["parts"] if kind == "field"]
+    pure_fields = [t for t in fields if t not in IMPURE]     # the recorder must not evaluate the others itself
 
     def install(w, p, k):
         args = {"fire_count": s["fire_count"], "fire_period": "0", "log_msg": tmpl}
@@ -111,7 +114,7 @@ def execute(s, ch):
     if s["logger"] == "python":
         logging.getLogger("deep").addHandler(hnd)
     try:
-        k, hits, ctx = hitcommon.run_hits(s, ch, install, fields, plugins=plugins, python_plugin=(s["logger"] == "python"),
+        k, hits, ctx = hitcommon.run_hits(s, ch, install, pure_fields, plugins=plugins, python_plugin=(s["logger"] == "python"),
                                           deep_log_level=logging.INFO if s["logger"] == "python" else None)
     finally:
         logging.getLogger("deep").removeHandler(hnd)
@@ -143,10 +146,17 @@ def execute(s, ch):
         pat = [re.escape("[deep] ")]
         plain = "[deep] "
         exact = True
+        n_next = 0
         for kind, t in s["parts"]:
             if kind == "lit":
                 pat.append(re.escape(t))
                 plain += t
+            elif t == "next(cnt)":
+                # the k-th occurrence in the message takes the k-th value of this hit's own iterator
+                txt = str(h.index * 10 + n_next)
+                n_next += 1
+                pat.append(re.escape(txt))
+                plain += txt
             else:
                 st, val = cap["exprs"][t]
                 if st == "ok":
